@@ -697,7 +697,54 @@ def rule_sized_collaborator_defaults(ctx: Ctx) -> None:
     need(ok_sites + n >= 3, f"C08-3: expected >= 3 constructors defaulting a sized collaborator, found {ok_sites + n}")
 
 
+def rule_wfq_weight_floor(ctx: Ctx) -> None:
+    """C08-3 (weighted fair queue): `pop` finds an item within its bounded search only if every backlogged flow gets at least one credit per
+    round, i.e. a flow's weight is >= 1 wherever it is stored — at flow creation *and* at any later refresh.  A weight of 0 (the weight
+    function is user code and is documented as "treated as 1") leaves the flow at zero credits: pop() returns None while items are held, the
+    driver parks and the non-empty queue suppresses later notifies."""
+    prog = ctx.prog
+    c = prog.cls(QPS + "weighted_fair_queue.py", "WeightedFairQueue")
+    n = 0
+    for fn in c.methods.values():
+        sites = []
+        for k in calls_in(fn.node):
+            if path_of(k.func) == "_FlowState":
+                sites += [(k, kw.value) for kw in k.keywords if kw.arg == "weight"]
+        for st in walk_stmts(fn.node.body):
+            if isinstance(st, ast.Assign) and isinstance(st.targets[0], ast.Attribute) and st.targets[0].attr == "weight" and path_of(st.targets[0].value) != "self":
+                sites.append((st, st.value))
+        if not sites:
+            continue
+        ff = ctx.flow(fn)
+        for site, v in sites:
+            n += 1
+            ok = isinstance(v, ast.Call) and path_of(v.func) == "max" and any(isinstance(a, ast.Constant) and isinstance(a.value, (int, float)) and a.value >= 1 for a in v.args)
+            why = ""
+            if not ok and isinstance(v, ast.Name):
+                node = next((x for x in ff.cfg.nodes if x.kind == "stmt" and any(y is site for y in ast.walk(x.ast))), None)
+                ok = node is not None
+                for p_ in (enumerate_paths(ff, ff.cfg.entry, stop=lambda x: x is node) if node is not None else []):
+                    if p_.end != "stop":
+                        continue
+                    floored = ("le", "1", v.id) in p_.facts or ("lt", "0", v.id) in p_.facts
+                    if not floored:
+                        last = None
+                        for x in p_.nodes[:-1]:
+                            if x.kind == "stmt" and isinstance(x.ast, (ast.Assign, ast.AnnAssign, ast.AugAssign)) and any(path_of(t) == v.id for t in (x.ast.targets if isinstance(x.ast, ast.Assign) else [x.ast.target])):
+                                last = x.ast
+                        floored = isinstance(last, ast.Assign) and isinstance(last.value, ast.Constant) and isinstance(last.value.value, int) and last.value.value >= 1
+                    if not floored:
+                        ok = False
+                        why = f" — not on the path [{p_.describe()}]"
+                        break
+            elif not ok:
+                why = f" — `{unparse(v)}` is neither `max(1, …)` nor a local floored on every path"
+            ctx.ob("C08-3", "G6", fn, site, ok, f"{fn.qual}: the weight stored for a flow (`{unparse(v)}`) is at least 1 on every path" + why)
+    need(n >= 1, "C08-3: no flow-weight store found in WeightedFairQueue")
+
+
 def run(ctx: Ctx) -> None:
+    ctx.guarded(rule_wfq_weight_floor)
     ctx.guarded(rule_sized_collaborator_defaults)
     ctx.guarded(rule_hunted_industrial)
     ctx.guarded(rule_policy_contract)
@@ -713,6 +760,8 @@ CODEL = QPS + "codel.py"
 DEADL = QPS + "deadline_queue.py"
 FAIR = QPS + "fair_queue.py"
 MUTANTS = [
+    ("wfq-refill-rereads-unclamped-weight", QPS + "weighted_fair_queue.py", "            # Flow has no credits, reset and move to end\n            flow_state.credits = flow_state.weight\n", "            # Flow has no credits, reset and move to end\n            flow_state.weight = self._get_weight(flow_id)\n            flow_state.credits = flow_state.weight\n", "C08-3"),
+    ("wfq-weight-floor-dropped", QPS + "weighted_fair_queue.py", "            if weight < 1:\n                weight = 1  # Minimum weight is 1\n", "", "C08-3"),
     ("shifted-server-policy-or-default", SHIFT, "policy=policy if policy is not None else FIFOQueue()", "policy=policy or FIFOQueue()", "C08-3"),
     ("shifted-server-first-item-keeps-t0-capacity", SHIFT, "            self._current_capacity = self.schedule.capacity_at(self.now.to_seconds())\n            next_event = self._schedule_next_shift()", "            next_event = self._schedule_next_shift()", "C08-7"),
     ("breakdown-repair-does-not-notify", "happysimulator/components/industrial/breakdown.py", "                events.append(QueueNotifyEvent(time=self.now, target=driver, queue_entity=queue))\n", "                pass\n", "C08-7"),
